@@ -119,6 +119,7 @@ fn dec_on<'b>(d: &mut Decoder<'b>, name: &str) -> Option<String> {
         "t:fields(u32,u32)" => d.decode::<core::ops::Range<u32>>().map(|x| format!("[{},{}]", x.start, x.end)),
         "t:duration" => d.decode::<core::time::Duration>().map(|x| format!("[{},{}]", x.as_secs(), x.subsec_nanos())),
         "t:str" => d.decode::<&str>().map(|s| format!("s{}", hex(s.as_bytes()))),
+        "t:cstr" => d.decode::<&core::ffi::CStr>().map(|s| format!("h{}", hex(s.to_bytes()))),
         "t:bound(u8)" => d.decode::<core::ops::Bound<u8>>().map(|x| match x {
             core::ops::Bound::Included(v) => format!("V0({})", v),
             core::ops::Bound::Excluded(v) => format!("V1({})", v),
